@@ -47,7 +47,9 @@ struct CallRes {
     bool canary_ok = true;
     bool is_encoder = false;      // bytes are an encoding that may be verified by decoding
     alloc::CallInfo info;
-    size_t live_after = 0;
+    size_t live_after = 0;  // blocks of this run still allocated after the call
+    size_t live_before = 0; // ... and before it (what earlier calls of this run left behind)
+    size_t kept_before = 0; // blocks the library kept for itself from earlier runs
     std::string leaked;
     uint64_t aux = 0;             // a value with a documented conservative fallback
 };
@@ -169,6 +171,8 @@ class AllocStateless : public Engine {
         std::string note = "op=" + kind;
         if (op.has("enc")) note += std::string(" enc=") + enc_name((int)op.u("enc"));
         ctx_note(note);
+        res.live_before = alloc::live_count();
+        res.kept_before = alloc::kept_count();
         alloc::set_fill(alloc::Fill::Garbage, 0xfeed ^ n);
 
         if (kind == "dict.encode") {
@@ -429,7 +433,7 @@ class AllocStateless : public Engine {
         }
         free(in);
         res.live_after = alloc::live_count();
-        if (res.live_after) {
+        if (res.live_after > res.live_before) {
             std::ostringstream o;
             for (auto &kv : alloc::live()) o << " [" << kv.second.size << "B from " << kv.second.site << "]";
             res.leaked = o.str();
@@ -502,7 +506,17 @@ class AllocStateless : public Engine {
         g_log.str(op.kind.c_str());
         g_log.u64(base.info.requests);
         g_log.bytes(base.bytes.data(), base.bytes.size());
-        bool base_valid = !base.failed && base.canary_ok && base.live_after == 0 && !base.info.bad_free;
+        // what the fault-free call leaves allocated (a library-side cache filling up) is not a leak
+        // under a fault; a call under a fault may leave at most as much
+        long base_growth = (long)base.live_after - (long)base.live_before;
+        if (base_growth > 0) {
+            // measure the steady state: the same call again, now that caches are warm
+            CallRes again = call(op, 0, nullptr);
+            out.cases++;
+            base_growth = std::max<long>(0, (long)again.live_after - (long)again.live_before);
+            stat("baseline_keeps_blocks_for_itself");
+        }
+        bool base_valid = !base.failed && base.canary_ok && !base.info.bad_free;
         if (base_valid && base.is_encoder) base_valid = verify_encoding(op, base);
         if (!base_valid) {
             stat("baseline-invalid");
@@ -540,8 +554,21 @@ class AllocStateless : public Engine {
                 fail("double-free", "free of a block that is not live at " + r.info.bad_free_site);
                 break;
             }
-            if (r.live_after) {
-                fail("leak", std::to_string(r.live_after) + " block(s) still live after the call:" + r.leaked);
+            bool leak = (long)r.live_after - (long)r.live_before > base_growth;
+            if (leak) {
+                // a leak accumulates: the same call under the same fault again must leave more
+                // blocks outstanding in total (a library-side pool fills once and stays that size)
+                size_t total1 = r.live_after + r.kept_before;
+                alloc::reset_run();
+                CallRes r2 = call(op, k, &base);
+                out.cases++;
+                size_t total2 = r2.live_after + r2.kept_before;
+                leak = (long)r2.live_after - (long)r2.live_before > base_growth && total2 > total1;
+                if (!leak) stat("leak_suspicion_not_confirmed_by_repetition");
+            }
+            if (leak) {
+                fail("leak", std::to_string(r.live_after - r.live_before) + " more block(s) allocated after the call than before it (the fault-free call leaves " +
+                                 std::to_string(base_growth) + "):" + r.leaked);
                 break;
             }
             if (!r.canary_ok) {
